@@ -22,11 +22,13 @@ import (
 // redirect to the authenticator and confirms (or tries to), then reuses the saved proxy cookie.
 
 type c19World struct {
-	proxy   *harness.ProxyEnv
-	auth    *harness.AuthEnv
-	authSrv *httptest.Server
-	revoked bool
-	V       time.Duration
+	proxy     *harness.ProxyEnv
+	auth      *harness.AuthEnv
+	authSrv   *httptest.Server
+	revoked   bool
+	noRefresh bool // the IdP issues no refresh token (no offline_access)
+	tokenGen  int
+	V         time.Duration
 }
 
 func newC19World() *c19World {
@@ -78,7 +80,16 @@ func (w *c19World) login(revokeAnswer func() harness.AuthAnswer) (proxyCookie, a
 		a := ans(500, "unexpected")
 		switch c.Endpoint {
 		case "token":
-			a = ans(200, `{"access_token":"idp-access-token","refresh_token":"idp-refresh-token","expires_in":3600,"id_token":"x.y.z"}`)
+			w.tokenGen++
+			rt := `"refresh_token":"idp-refresh-token",`
+			if w.noRefresh {
+				rt = ""
+			}
+			if c.Grant == "refresh_token" && w.revoked {
+				a = ans(400, `{"error":"invalid_grant","error_description":"The refresh token is invalid or expired."}`)
+			} else {
+				a = ans(200, fmt.Sprintf(`{"access_token":"idp-access-token-%d",%s"expires_in":3600,"id_token":"x.y.z"}`, w.tokenGen, rt))
+			}
 		case "userinfo":
 			a = ans(200, `{"email":"bob@corp.test","email_verified":true,"groups":["eng"]}`)
 		case "introspect":
@@ -150,6 +161,8 @@ func c19Run(c *fw.Ctx) {
 	posts := []string{"with-session-cookie", "no-cookie", "forged-cookie"}
 	sigs := []string{"fresh", "replayed-after-1s", "replayed-after-301s", "tampered-sig", "tampered-redirect", "out-of-domain-redirect"}
 	reuses := []int64{10, 70}
+	befores := []string{"nothing", "proxy-refreshed-and-revalidated"}
+	issued := []string{"with-refresh-token", "without-refresh-token"}
 	visits := []struct {
 		name string
 		h    http.Header
@@ -161,6 +174,8 @@ func c19Run(c *fw.Ctx) {
 		sigv := sigs[x.Choose("signed-url", len(sigs))]
 		reuse := reuses[x.Choose("reuse-old-proxy-cookie-after", len(reuses))]
 		visit := visits[x.Choose("sign-out-request-headers", len(visits))]
+		before := befores[x.Choose("before-sign-out", len(befores))]
+		w.noRefresh = issued[x.Choose("idp-issues", len(issued))] == "without-refresh-token"
 		setNow(0)
 		P, A, err := w.login(func() harness.AuthAnswer { return rv.a })
 		if err != nil {
@@ -170,8 +185,31 @@ func c19Run(c *fw.Ctx) {
 		var viols [][2]string
 		viol := func(key, what string) { viols = append(viols, [2]string{key, what}) }
 
+		// 0. optionally: the proxy session lives on for a while first — its token expires and is refreshed
+		// through the authenticator (so it now holds another access token than the authenticator's cookie),
+		// and it is revalidated once more
+		base := int64(0)
+		if before == "proxy-refreshed-and-revalidated" && !w.noRefresh {
+			base = 3700
+			setNow(base)
+			r := w.proxy.Do(harness.NewRequest("GET", "/private", hostA, http.Header{"Cookie": {harness.CookieName + "=" + P}}, nil))
+			if nc := r.Cookie(harness.CookieName); nc != nil && nc.Value != "" {
+				P = nc.Value
+			}
+			base += int64(w.V/time.Second) + 10
+			setNow(base)
+			r2 := w.proxy.Do(harness.NewRequest("GET", "/private", hostA, http.Header{"Cookie": {harness.CookieName + "=" + P}}, nil))
+			if nc := r2.Cookie(harness.CookieName); nc != nil && nc.Value != "" {
+				P = nc.Value
+			}
+			trace = append(trace, fmt.Sprintf("+3700s request -> %d (refresh), +%ds request -> %d (revalidation)", r.Status, base, r2.Status))
+			if !r.Served() || !r2.Served() {
+				viol("live-session-refused-before-sign-out", "a live session was refused before any sign-out happened")
+			}
+		}
+
 		// 1. sign out at the proxy
-		setNow(5)
+		setNow(base + 5)
 		h1 := http.Header{"Cookie": {harness.CookieName + "=" + P}}
 		for k, v := range visit.h {
 			h1[k] = v
@@ -202,20 +240,20 @@ func c19Run(c *fw.Ctx) {
 			form = map[string]string{"redirect_uri": ret, "sig": q.Get("sig"), "ts": q.Get("ts")}
 		}
 		// 2. confirm (POST), possibly replayed / tampered
-		at := int64(6)
+		at := base + 6
 		switch sigv {
 		case "replayed-after-1s":
-			at = 7
+			at = base + 7
 		case "replayed-after-301s":
-			at = 5 + 301
+			at = base + 5 + 301
 		case "tampered-sig":
 			form["sig"] = "AAAA" + form["sig"][4:]
 		case "tampered-redirect":
 			form["redirect_uri"] = "http://b.sso.test/"
 		case "out-of-domain-redirect":
 			form["redirect_uri"] = "http://evil.test/"
-			form["sig"] = harness.Sign("http://evil.test/", 5, harness.ClientSecret)
-			form["ts"] = "5"
+			form["sig"] = harness.Sign("http://evil.test/", harness.T0.Unix()+base+5, harness.ClientSecret)
+			form["ts"] = fmt.Sprint(harness.T0.Unix() + base + 5)
 		}
 		setNow(at)
 		hdr := http.Header{"Content-Type": {"application/x-www-form-urlencoded"}}
@@ -271,7 +309,7 @@ func c19Run(c *fw.Ctx) {
 		s4 := w.proxy.Do(harness.NewRequest("GET", "/private", hostA, http.Header{"Cookie": {harness.CookieName + "=" + P}}, nil))
 		checked := len(s4.Calls) > 0
 		trace = append(trace, fmt.Sprintf("reuse old proxy cookie at +%ds -> %d served=%v revalidated=%v (token revoked at IdP: %v)", at+reuse, s4.Status, s4.Served(), checked, w.revoked))
-		if w.revoked && at+reuse >= int64(w.V/time.Second) && s4.Served() {
+		if w.revoked && reuse >= int64(w.V/time.Second) && s4.Served() {
 			viol("old-proxy-session-survives-revalidation", "after a successful sign-out the saved proxy cookie was still served at a request whose revalidation was due")
 		}
 		if w.revoked && !s4.Served() {
@@ -280,11 +318,11 @@ func c19Run(c *fw.Ctx) {
 		if !owned {
 			return
 		}
-		d := map[string]interface{}{"sign_out_request": visit.name, "revoke_outcome": rv.name, "confirm_with": post, "signed_url": sigv, "reuse_after_s": reuse, "trace": trace}
+		d := map[string]interface{}{"before_sign_out": before, "idp_issues": issued[map[bool]int{false: 0, true: 1}[w.noRefresh]], "sign_out_request": visit.name, "revoke_outcome": rv.name, "confirm_with": post, "signed_url": sigv, "reuse_after_s": reuse, "trace": trace}
 		for _, v := range viols {
 			c.Res.Violate(fw.Violation{Property: "C19", Key: "C19/" + v[0], What: v[1], Scenario: "history", Choices: x.Choices(), Detail: d})
 		}
-		c.Res.Outcome(fmt.Sprintf("%s|%s|%s|%s|%d|%d|%v|%v|%v", visit.name, rv.name, post, sigv, reuse, s3.Status, cleared, revokeOK, s4.Served()))
+		c.Res.Outcome(fmt.Sprintf("%s|%v|%s|%s|%s|%s|%d|%d|%v|%v|%v", before, w.noRefresh, visit.name, rv.name, post, sigv, reuse, s3.Status, cleared, revokeOK, s4.Served()))
 		c.Res.States++
 		c.Res.Transitions += 12
 		c.Res.Validated++
@@ -301,7 +339,7 @@ func init() {
 	fw.Register(&fw.Check{
 		ID:    "C19",
 		Level: "model_checking",
-		Rule: "every history of the family: full browser login through the REAL proxy -> REAL authenticator (back channel over loopback) -> scripted stateful IdP (9 requests), sign-out at the proxy (plain, or carrying X-Forwarded-Host naming a foreign / sibling host, or X-Forwarded-Proto), GET of the signed authenticator URL, POST confirmation with {session cookie, no cookie, forged cookie} x signed URL {fresh, replayed after 1 s, replayed after 301 s, tampered signature, tampered return address, re-signed out-of-domain return address} x IdP revoke outcome {200, 400, 401, 403, 404, 429, 500, 503, connection reset}, then reuse of the saved proxy cookie after {10 s, validity TTL + 10 s}; " +
+		Rule: "every history of the family: IdP issuing {a refresh token, none}; full browser login through the REAL proxy -> REAL authenticator (back channel over loopback) -> scripted stateful IdP (9 requests), optionally a token refresh through the authenticator and a further revalidation of the proxy session, sign-out at the proxy (plain, or carrying X-Forwarded-Host naming a foreign / sibling host, or X-Forwarded-Proto), GET of the signed authenticator URL, POST confirmation with {session cookie, no cookie, forged cookie} x signed URL {fresh, replayed after 1 s, replayed after 301 s, tampered signature, tampered return address, re-signed out-of-domain return address} x IdP revoke outcome {200, 400, 401, 403, 404, 429, 500, 503, connection reset}, then reuse of the saved proxy cookie after {10 s, validity TTL + 10 s}; " +
 			"oracle = combined-state model: proxy clears its cookie and sends the browser to the authenticator with a return address on the same host that the authenticator's own checks accept; the authenticator clears its cookie and returns the browser only after the IdP accepted the revocation, otherwise >= 500 page and cookie kept; nothing happens for an invalid signed URL; after a successful revoke the old proxy cookie is refused at the first request whose revalidation is due; " +
 			"states = histories executed (each on the real code, so also traces_validated_against_impl), transitions = requests; distinct_nontrivial = distinct (revoke outcome, confirmation kind, URL kind, reuse gap, status, cleared, revoked, served)",
 		Assumptions:    []string{"Okta flavour; the IdP is scripted but stateful (a revoked token is reported inactive afterwards)", "virtual clock shared by both services"},
